@@ -116,12 +116,20 @@ def run(tier):
     bdir = common.build("plain")
     drv = os.path.join(bdir, "bin", "zwdrv")
     out = os.path.join(wd, "atval.ndjson")
-    r = tlc.run_tlc("AtValGen", constants={"OutFile": out}, workers=1, timeout=900)
+    # the switch over the forms as it was before fix 433e4b2 does not satisfy Transparent (self-test of the model)
+    rp = tlc.run_tlc("AtValGen", constants={"OutFile": out + ".pinned", "PinnedForms": True}, workers=1, timeout=900)
+    if '"FORMS", FALSE' not in rp.out.replace("\n", " "):
+        raise common.ToolError("AtVal.tla: the pinned switch is not caught\n" + rp.out[-1500:])
+    r = tlc.run_tlc("AtValGen", constants={"OutFile": out, "PinnedForms": False}, workers=1, timeout=900)
     if not r.ok or not os.path.exists(out):
         raise common.ToolError("AtValGen failed\n" + r.out[-2000:])
     allrecs_ = [json.loads(l) for l in open(out) if l.strip()]
     descs = [x for x in allrecs_ if "d" in x]
     enumattrs = [x for x in allrecs_ if "enumattr" in x]
+    formrows = [x for x in allrecs_ if "formrow" in x]
+    if '"FORMS", TRUE, TRUE' not in r.out.replace("\n", " "):
+        vd.observe("model:a form of AtVal!FormTable does not yield its datum (Transparent / DirectIsDirect)",
+                   {"rows": [x for x in formrows if x["branch"] == "unhandled"], "output": r.out[-1500:]})
     m = re.search(r'"ATVAL",\s*(\d+),\s*(\d+)', r.out.replace("\n", " "))
     if m and int(m.group(2)) > 0:
         bad = [x for x in descs if x["documented"] != "any" and x["code"] != x["documented"]]
@@ -281,6 +289,71 @@ def run(tier):
             else:
                 out.append([lo, hi])
         return [(lo, hi - lo) for lo, hi in out]
+    # forms and classes (AtVal!FormTable): the same datum stored in every form of its class -- in the DIE, in a
+    # string section, in a table of the unit behind an index -- in units of every version that has the form;
+    # `value' yields the datum
+    fkids = {2: [], 3: [], 4: [], 5: []}
+    fexp = {}
+    STRS = [b"s-one", b"", b"s\xfftwo", b"x" * 300]
+    ADDRS = [0, 0x1234, 2**63, 2**64 - 16]
+    RNGS = [[(0x100, 0x110)], [(0x300, 0x340), (0x320, 0x330), (0x100, 0x101)], [(0x500, 0x510), (0x510, 0x520)]]
+    def v5ranges(pairs, k):
+        out = []
+        for j, (lo, hi) in enumerate(pairs):
+            kind = ("start_end", "start_length", "startx_endx", "startx_length", "offset_pair")[(k + j) % 5]
+            if kind in ("start_length", "startx_length"): out.append((kind, lo, hi - lo))
+            elif kind == "offset_pair":
+                out.append(("base_address" if (k + j) % 2 else "base_addressx", lo - 0x10)); out.append((kind, 0x10, hi - lo + 0x10))
+            else: out.append((kind, lo, hi))
+        return out
+    fid = [20000]
+    for row in formrows:
+        fr = row["formrow"]
+        for ver in (2, 3, 4, 5):
+            if ver < fr["minver"] or (fr["form"].startswith("GNU_") and ver != 4):
+                continue
+            if fr["form"] in ("rangelist", "loclist") and False:
+                continue
+            data = {"string": STRS, "address": ADDRS, "rnglist": RNGS, "loclist": []}[fr["class"]]
+            for k, datum in enumerate(data):
+                fid[0] += 1
+                if fr["class"] == "string":
+                    at = {"name": (3, 0x25, 0x1b)[k % 3], "form": fr["form"], "value": datum}
+                elif fr["class"] == "address":
+                    at = {"name": (0x11, 0x52)[k % 2], "form": fr["form"], "value": datum}
+                else:
+                    if ver < 3:
+                        continue
+                    at = {"name": 0x55, "form": fr["form"], "value": v5ranges(datum, k) if ver >= 5 else datum}
+                fkids[ver].append({"id": fid[0], "tag": 0x2e, "children": [], "attrs": [at]})
+                fexp[fid[0]] = (fr["form"], fr["class"], ver, datum)
+    funits = [{"kind": "cu", "version": ver, "table": 50 + ver, "root": {"id": 19990 + ver, "tag": 0x11, "children": fkids[ver],
+               "attrs": [{"name": 0x11, "form": "addr", "value": 0}]}} for ver in (2, 3, 4, 5)]
+    of, offsf, _ = dwarfgen.build({"units": funits}, wd, "c07forms")
+    bf = D.Built(of, offsf)
+    jobs = [(of, "entry (offset == %d) [[attribute value], [address]]" % bf.off[i], False) for i in sorted(fexp)]
+    for i, rec in zip(sorted(fexp), D.run_queries(drv, jobs, wd, "c07forms")):
+        form, cls, ver, datum = fexp[i]
+        vd.cov["evaluations"] += 1
+        key = "DW_FORM_%s (class %s, version %d unit)" % (form, cls, ver)
+        if not rec or rec.get("status") != "ok" or len(rec["results"]) != 1:
+            vd.observe(key + ": no value (%s)" % (rec or {}).get("err", "?"), {"observed": rec, "datum": str(datum)}); continue
+        vals = rec["results"][0][-1]["v"][0]["v"]
+        aset = rec["results"][0][-1]["v"][1]["v"]
+        ok = len(vals) == 1
+        if ok and cls == "string":
+            ok = vals[0]["t"] == "str" and binascii.unhexlify(vals[0]["hex"]) == datum
+        elif ok and cls == "address":
+            ok = vals[0]["t"] == "cst" and int(vals[0]["v"]) == datum and vals[0]["dom"] not in ("dec", "bool")
+        elif ok and cls == "rnglist":
+            want = cover(datum)
+            got = [(int(a), int(l)) for a, l in vals[0]["v"]] if vals[0]["t"] == "aset" else None
+            got2 = [(int(a), int(l)) for a, l in aset[0]["v"]] if aset and aset[0]["t"] == "aset" else None
+            ok = got == want and got2 == want
+        if not ok:
+            vd.observe(key + ": `value' does not yield the datum", {"expected": str(datum)[:200], "observed": vals, "address": aset})
+        else:
+            nontriv += 1
     acases = [(4, [("low", "addr", 0x1000), ("high", "data8", 0x20)], [(0x1000, 0x1020)]),
               (4, [("low", "addr", 0x1000), ("high", "udata", 0x20)], [(0x1000, 0x1020)]),
               (4, [("low", "addr", 2**63), ("high", "data1", 0xff)], [(2**63, 2**63 + 0xff)]),
